@@ -485,6 +485,17 @@ func init() {
 					}},
 				{Name: "variable-collection", N: countStrings(k, depth), Run: func(c *fw.Ctx, i int64) { c18Collections(c, seqByIndex(k, i), false) },
 					Repr: func(i int64) string { return "VariableCollection [" + c18Hist(seqByIndex(k, i), c18Ops) + "]" }},
+				{Name: "pumped-collection-histories", N: (countStrings(k, 2) - 1) * 5 * 2, Run: func(c *fw.Ctx, i int64) {
+					base := seqByIndex(k, 1+i/10)
+					n := []int{3, 9, 17, 65, 257}[i/2%5]
+					h := []int{}
+					for len(h) < n*len(base) {
+						h = append(h, base...)
+					}
+					c18Collections(c, h, i%2 == 1)
+				}, Repr: func(i int64) string {
+					return fmt.Sprintf("[%s] repeated %d times (function collection: %v)", c18Hist(seqByIndex(k, 1+i/10), c18Ops), []int{3, 9, 17, 65, 257}[i/2%5], i%2 == 1)
+				}},
 				{Name: "function-collection", N: countStrings(k, depth), Run: func(c *fw.Ctx, i int64) { c18Collections(c, seqByIndex(k, i), true) },
 					Repr: func(i int64) string { return "FunctionCollection [" + c18Hist(seqByIndex(k, i), c18Ops) + "]" }},
 			}
